@@ -83,7 +83,8 @@ PROPS["C08"] = dict(
 PROPS["C09"] = dict(
     level="proof",
     modules=["contracts.c_tx", "contracts.c_sighash"],
-    not_decided=["PSBT-level and streamed-view digests", "legacy digest (script walking over symbolic scripts): bounded stand-in"],
+    not_decided=["taproot == BIP341 SigMsg as a deductive statement: the contract exists (deep tier) and did not finish in 3.4 h (2048 paths, 27837 obligations discharged, none failed); BIP341 is covered by bounded stand-ins only",
+                 "legacy digest (script walking over symbolic scripts): bounded stand-in", "PSBT-level and streamed-view digests: bounded stand-in"],
     assumptions=["sha256 is a function (uninterpreted); BIP143/BIP341 layouts as transcribed in spec/sighash.py"],
     bounded=[],
 )
